@@ -28,7 +28,7 @@ var fsKinds = []string{"undefined", "null", "boolean", "number", "string", "obje
 	"hs_group", "hs_class", "hs_backslash", "hs_quant", "hs_percent", "hs_surrogate", "hs_long", "hs_json",
 	"nested_arrays", "mixed_array", "array_of_arrays_mixed", "regexp_proto", "bound_bare", "utf16_digits", "utf16_surrogate", "fn_src_break", "dollar_nn", "date_proto", "error_proto", "string_proto", "array_proto", "function_proto", "number_proto", "boolean_proto",
 	"nonext_string_fffd", "nonext_array", "nonext_args", "sealed_fn", "frozen_string_wide", "nonext_date", "nonext_regexp",
-	"go_slice", "go_map", "go_struct", "go_array", "go_ptr_struct", "go_slice_iface", "go_func", "go_nil_slice", "go_map_int"}
+	"go_slice", "go_map", "go_struct", "go_array", "go_ptr_struct", "go_slice_iface", "go_func", "go_nil_slice", "go_map_int", "go_ptr_array", "go_ptr_array_iface"}
 
 // kinds used when two positions vary together (the full product of all kinds
 // would be 50x50 per function)
@@ -111,7 +111,7 @@ function __mk(kind){
   case 'frozen_string_wide': return Object.freeze(new String('\u4e2d\ud83d\ude00\ud800'));
   case 'nonext_date': return Object.preventExtensions(new Date(0));
   case 'nonext_regexp': return Object.preventExtensions(/a/g);
-  case 'go_slice': case 'go_map': case 'go_struct': case 'go_array': case 'go_ptr_struct': case 'go_slice_iface': case 'go_func': case 'go_nil_slice': case 'go_map_int': return hgo(kind);
+  case 'go_slice': case 'go_map': case 'go_struct': case 'go_array': case 'go_ptr_struct': case 'go_slice_iface': case 'go_func': case 'go_nil_slice': case 'go_map_int': case 'go_ptr_array': case 'go_ptr_array_iface': return hgo(kind);
   case 'trap': return __mkTrap(false);
   case 'trapfn': return __mkTrap(true);
   }
@@ -222,6 +222,10 @@ func newFSRuntime() *fsRuntime {
 			gv = []string(nil)
 		case "go_map_int":
 			gv = map[int]string{1: "one", 2: "two"}
+		case "go_ptr_array":
+			gv = &[3]int32{1, 2, 3}
+		case "go_ptr_array_iface":
+			gv = &[2]interface{}{1, "a"}
 		}
 		v, err := call.Otto.ToValue(gv)
 		if err != nil {
